@@ -5,6 +5,9 @@ VERIF = os.path.dirname(os.path.dirname(os.path.abspath(__file__)))
 REPO = os.environ.get("VERIF_REPO", "/repo")
 BUILD = os.path.join(VERIF, ".build")
 VX = os.path.join(BUILD, "vx", "release", "vx")
+import hashlib as _hl
+# scratch copies of the repository (audit, seed matrix: VERIF_REPO) get their own generated files, so concurrent runs never share one
+SCRATCH_TAG = "" if os.environ.get("VERIF_REPO", "/repo") == "/repo" else "-" + _hl.sha256(os.environ["VERIF_REPO"].encode()).hexdigest()[:8]
 
 
 class Undecided(Exception):
@@ -134,7 +137,7 @@ def find_let(fn, name, nth=0):
 def expanded_source(features=("ibig",)):
     """Macro-expanded crate text from rustc (-Zunpretty=expanded), mechanical."""
     tgt = os.path.join(BUILD, "expand-target")
-    out = os.path.join(BUILD, "expanded-%s.rs" % "-".join(features))
+    out = os.path.join(BUILD, "expanded-%s.rs" % "-".join(features)) if not SCRATCH_TAG else os.path.join(BUILD, "expanded%s-%s.rs" % (SCRATCH_TAG, "-".join(features)))
     env = dict(os.environ, CARGO_NET_OFFLINE="true", CARGO_TARGET_DIR=tgt)
     cmd = ["cargo", "+nightly", "rustc", "--lib", "--offline", "--no-default-features",
            "--features", ",".join(features), "--", "-Zunpretty=expanded"]
